@@ -15,6 +15,7 @@ import ASV.Proofs.RegionsRingOne
 import ASV.Proofs.RegionsRingNear
 import ASV.Proofs.RegionsRingUnion
 import ASV.Proofs.RegionsRingOrder
+import ASV.Proofs.RegionsRingInit
 namespace ASV.C06
 open ASV ASV.Regions ASV.Components
 
@@ -353,6 +354,43 @@ example : (collectionLt (areaTwo 950 30 1000 .fwd) (.simple ⟨20, 60, .fwd⟩))
     RingArea 1000 (areaTwo 950 30 1000 .fwd) ∧ RingArea 1000 (.simple ⟨20, 60, .fwd⟩) := by
   refine ⟨by decide, by decide, Or.inr ⟨950, 30, rfl, by decide, by decide, by decide⟩,
     Or.inl ⟨_, rfl, by decide, by decide, by decide⟩⟩
+
+/-- **The containment check of the `parent` setter on a ring** (second of the pieces missing for success): a
+    well-formed area all of whose bases lie in a well-formed span that does not cover the whole record is contained
+    in it part by part — `location_contains_other(region, child)` holds, also when the region has two parts
+    (`[a, L) + [0, b)`): a single-part child cannot straddle the gap, an origin-spanning child has `a ≤ x`, `y ≤ b`. -/
+theorem parent_check_passes_on_ring (L : Int) (r child : Loc) (hr : RingArea L r) (hc : RingArea L child)
+    (hsub : ∀ i, child.mem i = true → r.mem i = true) (hmiss : ∃ i, 0 ≤ i ∧ i < L ∧ r.mem i = false) :
+    locationContainsOther r child = true :=
+  parent_check_passes hr hc hsub hmiss
+
+/-- **`Region(candidates, subregions)` never raises on a ring** (`_partial`: hypothesis `ArcUnions`) for the areas of
+    a family grown by joining overlapping families — what every section of `create_regions` is (`SecOK.joined`):
+    the wrap point is inferred, `connect_locations` returns, the `CDSCollection` / `Feature` constructor checks pass,
+    the `parent` setter accepts every child, and the region's location has exactly the children's bases.
+    Remaining for success of `create_regions` itself: `add_region`'s overlap rejection must not fire, i.e. sections
+    of different components have disjoint locations (not proved). -/
+theorem region_constructor_succeeds_on_ring_partial (L : Int) (hL : 0 < L) (all : List Feat)
+    (hring : ∀ f ∈ all, RingArea L f.loc) (harc : ArcUnions L all) (s : State) (cands subs fam : List Feat)
+    (hj : Joined all fam) (hmem : ∀ f, f ∈ subs ++ cands ↔ f ∈ fam) :
+    ∃ s1 r, mkRegion s cands subs = .ok (s1, r) ∧ RingArea L r.loc ∧
+      ∀ i, r.loc.mem i = true ↔ ∃ f ∈ fam, f.loc.mem i = true :=
+  mkRegion_ring_ok hL hring harc s cands subs fam hj hmem
+
+/-- … without the hypothesis on unions in the near-origin window -/
+theorem region_constructor_succeeds_near_origin (W L : Int) (hW : 0 < W) (hWL : 4 * W < L) (all : List Feat)
+    (hnear : ∀ f ∈ all, NearOrigin W L f.loc) (s : State) (cands subs fam : List Feat)
+    (hj : Joined all fam) (hmem : ∀ f, f ∈ subs ++ cands ↔ f ∈ fam) :
+    ∃ s1 r, mkRegion s cands subs = .ok (s1, r) ∧ RingArea L r.loc ∧
+      ∀ i, r.loc.mem i = true ↔ ∃ f ∈ fam, f.loc.mem i = true :=
+  mkRegion_ring_ok (by omega) (fun f hf => (hnear f hf).ringArea hW hWL) (arcUnions_near_origin hW hWL hnear)
+    s cands subs fam hj hmem
+
+/-- non-vacuity: children of the two-part region of `nearDemo` pass the setter's check; a child straddling the gap
+    of a span covering the whole record would not -/
+example : locationContainsOther (areaTwo 900 60 1000 .fwd) (.simple ⟨20, 60, .fwd⟩) = true ∧
+    locationContainsOther (areaTwo 900 60 1000 .fwd) (areaTwo 950 30 1000 .fwd) = true ∧
+    locationContainsOther (areaTwo 500 500 1000 .fwd) (.simple ⟨400, 600, .fwd⟩) = false := by decide
 
 /-! ### `create_regions(candidate_clusters=…, subregions=…)`: regions are built from exactly the given areas -/
 
